@@ -56,3 +56,6 @@ Definition run_waiter_chain (c : wval * list val * list (list nat)) : J :=
   JL (map (fun order =>
         JL [JO J_of (collect (run_schedule (map (fun i => (i, res i)) order)) w);
             JL (map (fun i => JZ (Z.of_nat i)) order)]) scheds).
+
+(* one awaitable raises: whatever the order, waiter raises that exception (nothing to collect) *)
+Definition run_waiter_raise (c : list (list nat) * string) : J := JL (map (fun _ => JErr (snd c)) (fst c)).
